@@ -168,18 +168,31 @@ def coq_store(sto):
     return "(store_of [" + "; ".join(f"({_hex(k)}, {_hex(v)})" for k, v in sorted(sto.items())) + "])"
 
 
+class PBytes(list):
+    """byte list that may contain the poison byte -1 (uninitialised memory in Venom.v)"""
+
+    def hex(self):
+        return "".join("??" if x < 0 else f"{x:02x}" for x in self)
+
+    def __eq__(self, other):
+        return list(self) == list(other)
+
+    def __ne__(self, other):
+        return not self.__eq__(other)
+
+
 def decode_render(zs):
     """inverse of Venom.render -> dict(code, data(bytes), logs[(topics, data)], sto{}, tra{})"""
     it = iter(zs)
     code = next(it)
     n = next(it)
-    data = bytes(next(it) for _ in range(n))
+    data = PBytes(next(it) for _ in range(n))
     logs = []
     for _ in range(next(it)):
         nt = next(it)
         topics = [next(it) for _ in range(nt)]
         nd = next(it)
-        logs.append((topics, bytes(next(it) for _ in range(nd))))
+        logs.append((topics, PBytes(next(it) for _ in range(nd))))
     maps = []
     for _ in range(2):
         m = {}
